@@ -4,7 +4,9 @@ from analysis.mir import *
 def main():
     args=sys.argv[1:]
     i=args.index('--')
-    prog=Program(args[:i])
+    from analysis import extract
+    cfg=args[0] if i>0 else 'D'
+    prog=Program(extract.facts_for(cfg)[0])
     for suf in args[i+1:]:
         for b in prog.find(suf):
             print('=====',b.path,b.kind,b.file,b.line,'blocks',b.nblocks)
